@@ -489,6 +489,7 @@ func runC02(c *mon.Ctx) {
 			}
 		})
 	}
+	c02DuplicateMembers(c)
 	c.Floor("sign_calls", 50)
 	c.Floor("verify_mutated", 200)
 }
@@ -505,4 +506,59 @@ func signerDesc(ss []signer) []string {
 		out = append(out, s.name+"/"+string(s.kid))
 	}
 	return out
+}
+
+// c02DuplicateMembers: a member inserted into a signed object under a name the object already has. The signed text has
+// changed, readers that take the first copy (or the last) see another value: the signature must not verify. An object
+// that repeats a name to begin with is either refused by SignJSON or signed in a way that verifies.
+func c02DuplicateMembers(c *mon.Ctx) {
+	if c.Shard != 0 {
+		return
+	}
+	r := c.Rand("duplicates")
+	n := c.Scale(40, 4000)
+	for k := 0; k < n; k++ {
+		s := newSigner(r)
+		obj := gen.RandObject(r, gen.JSONOpts{Depth: 2, Width: r.Range(1, 14), PlainKey: true})
+		obj.Del("signatures")
+		obj.Del("unsigned")
+		if len(obj.O) == 0 {
+			obj.Set("amount", ref.I(1))
+		}
+		c.Case("duplicate-member", map[string]any{"object": string(gen.Plain().Bytes(obj)), "signer": s.name}, func() {
+			signed, err := gmsl.SignJSON(s.name, s.kid, s.priv, gen.Plain().Bytes(obj))
+			if err != nil {
+				return
+			}
+			c.Nontrivial("dup|" + string(signed))
+			sv := ref.MustParse(signed)
+			victim := gen.Pick(r, obj.O)
+			forged := ref.Member{Key: victim.Key, Val: ref.S("substituted")}
+			for _, where := range []string{"first", "last"} {
+				tv := sv.Clone()
+				if where == "first" {
+					tv.O = append([]ref.Member{forged}, tv.O...)
+				} else {
+					tv.O = append(tv.O, forged)
+				}
+				text := gen.Plain().Bytes(tv)
+				c.Count("duplicate_member_verifications")
+				if err := gmsl.VerifyJSON(s.name, s.kid, s.pub, text); err == nil {
+					c.Failf("verify:accepts-mutation:duplicate-member-inserted", "VerifyJSON(%q,%q) accepts %q: a second member %q was inserted (%s) into the signed %q", s.name, s.kid, text, victim.Key, where, signed)
+				}
+			}
+			// signing an object that repeats a name
+			dv := ref.MustParse(gen.Plain().Bytes(obj))
+			dv.O = append(dv.O, ref.Member{Key: victim.Key, Val: ref.I(2)})
+			dtext := gen.Plain().Bytes(dv)
+			if out, err := gmsl.SignJSON(s.name, s.kid, s.priv, dtext); err == nil {
+				c.Count("duplicate_member_objects_signed")
+				if err := gmsl.VerifyJSON(s.name, s.kid, s.pub, out); err != nil {
+					c.Failf("verify:rejects-own-signature:duplicate-member", "SignJSON signs %q without complaint but its output %q does not verify: %v", dtext, out, err)
+				}
+			} else {
+				c.Count("duplicate_member_objects_refused")
+			}
+		})
+	}
 }
